@@ -1,8 +1,288 @@
-(* C04 — proofs about model/C04_model.v (history level). *)
+(* C04 (H) — proofs about model/C04_model.v: history level, explicit clock. *)
 From Coq Require Import ZArith NArith List String Bool Lia.
 From AV Require Import lib.Str model.C04_model model.C04_run.
 Import ListNotations.
 Local Open Scope Z_scope.
 
-Lemma deadline_whole_seconds c now : deadline c now = (now + life c) / NS.
-Proof. reflexivity. Qed.
+(* ---- block lists ---- *)
+Lemma find_del_same bs h : find_block (del_block bs h) h = None.
+Proof.
+  induction bs as [|b r IH]; cbn; [reflexivity|].
+  destruct (String.eqb_spec (b_hash b) h) as [E|E]; cbn; [exact IH|].
+  destruct (String.eqb_spec (b_hash b) h); [contradiction|exact IH].
+Qed.
+Lemma find_del_other bs h h' : h' <> h -> find_block (del_block bs h) h' = find_block bs h'.
+Proof.
+  intros Hn. induction bs as [|b r IH]; cbn; [reflexivity|].
+  destruct (String.eqb_spec (b_hash b) h) as [E|E]; cbn.
+  - destruct (String.eqb_spec (b_hash b) h') as [E'|E']; [congruence|exact IH].
+  - destruct (String.eqb_spec (b_hash b) h'); [reflexivity|exact IH].
+Qed.
+Lemma find_set_same bs h m : find_block (set_block bs h m) h = Some m.
+Proof. unfold set_block. cbn. rewrite String.eqb_refl. reflexivity. Qed.
+Lemma find_set_other bs h m h' : h' <> h -> find_block (set_block bs h m) h' = find_block bs h'.
+Proof.
+  intros Hn. unfold set_block. cbn. destruct (String.eqb_spec h h'); [congruence|]. apply find_del_other. exact Hn.
+Qed.
+
+(* ================================================================== *)
+(* fresh_survives                                                      *)
+
+Section Fresh.
+Variable c : cfg.
+Variable h : string.
+Variable t : Z.
+
+Definition fresh_v (v : vol) : Prop := exists m, find_block (v_blocks v) h = Some m /\ t <= m.
+Definition Fresh (vs : list vol) : Prop := Exists fresh_v vs.
+Definition keeps (v v' : vol) : Prop := fresh_v v -> fresh_v v'.
+
+Lemma keeps_refl v : keeps v v.
+Proof. intros X; exact X. Qed.
+
+Lemma Forall2_keeps vs : forall vs', Forall2 keeps vs vs' -> Fresh vs -> Fresh vs'.
+Proof.
+  induction vs as [|v r IH]; intros vs' HF HE; inversion HF; subst; inversion HE; subst.
+  - constructor 1. auto.
+  - constructor 2. apply IH; assumption.
+Qed.
+Lemma Forall2_keeps_refl vs : Forall2 keeps vs vs.
+Proof. induction vs; constructor; [apply keeps_refl|assumption]. Qed.
+Lemma Forall2_keeps_trans a : forall b d, Forall2 keeps a b -> Forall2 keeps b d -> Forall2 keeps a d.
+Proof.
+  induction a as [|x r IH]; intros b d H1 H2; inversion H1; subst; inversion H2; subst; constructor.
+  - intros X. auto.
+  - eapply IH; eassumption.
+Qed.
+
+(* setting a block to a time >= t keeps (or establishes) freshness *)
+Lemma keeps_set v h' now : t <= now -> keeps v (with_blocks v (set_block (v_blocks v) h' now)).
+Proof.
+  intros Hn (m & A & B). unfold fresh_v. cbn [with_blocks v_blocks].
+  destruct (String.eqb_spec h h') as [->|E].
+  - exists now. rewrite find_set_same. auto.
+  - exists m. rewrite find_set_other by exact E. auto.
+Qed.
+
+Lemma keeps_touch v h' now v' : t <= now -> vol_touch v h' now = Some v' -> keeps v v'.
+Proof.
+  intros Hn. unfold vol_touch. destruct (v_ro v); [discriminate|].
+  destruct (find_block (v_blocks v) h'); [|discriminate]. intros X; inversion X; subst. apply keeps_set. exact Hn.
+Qed.
+
+(* Trash re-checks the age under the flock: a copy with mtime >= t is not touched while now < t + ttl *)
+Lemma keeps_trash v h' now : now < t + ttl c -> keeps v (snd (vol_trash c v h' now)).
+Proof.
+  intros Hn (m & A & B). unfold vol_trash. destruct (v_ro v || negb (blob_trash c)); [exists m; auto|].
+  destruct (String.eqb_spec h h') as [<-|E].
+  - rewrite A. destruct (Z.ltb_spec (now - m) (ttl c)); [exists m; auto|lia].
+  - destruct (find_block (v_blocks v) h') as [m'|]; [|exists m; auto].
+    destruct (now - m' <? ttl c); [exists m; auto|].
+    destruct (life c =? 0); unfold fresh_v; cbn [snd with_blocks with_both v_blocks]; exists m; rewrite find_del_other by exact E; auto.
+Qed.
+
+Lemma keeps_untrash v h' : h' <> h -> keeps v (snd (vol_untrash v h')).
+Proof.
+  intros E (m & A & B). unfold vol_untrash. destruct (v_ro v); [exists m; auto|].
+  destruct (first_trash (v_trash v) h' None); unfold fresh_v; cbn [snd with_both v_blocks]; [|exists m; auto].
+  exists m. rewrite find_set_other by congruence. auto.
+Qed.
+
+Lemma keeps_empty v now : keeps v (vol_empty v now).
+Proof. intros (m & A & B). exists m. auto. Qed.
+
+Lemma keeps_trash_item it now v : now < t + ttl c -> keeps v (trash_item_vol c it now v).
+Proof.
+  intros Hn. unfold trash_item_vol. destruct (v_ro v); [apply keeps_refl|].
+  destruct (negb _); [apply keeps_refl|]. destruct (find_block (v_blocks v) (i_hash it)); [|apply keeps_refl].
+  destruct (negb _); [apply keeps_refl|]. destruct (negb _); [apply keeps_refl|]. apply keeps_trash. exact Hn.
+Qed.
+
+(* the list-level operations act volume by volume *)
+Lemma touch_first_keeps vs h' now : t <= now -> forall vs', touch_first vs h' now = Some vs' -> Forall2 keeps vs vs'.
+Proof.
+  intros Hn. induction vs as [|v r IH]; intros vs'; cbn [touch_first]; [discriminate|].
+  destruct (vol_touch v h' now) as [v'|] eqn:Et.
+  - intros X; inversion X; subst. constructor; [eapply keeps_touch; eassumption|apply Forall2_keeps_refl].
+  - destruct (touch_first r h' now) as [r'|]; [|discriminate]. intros X; inversion X; subst.
+    constructor; [apply keeps_refl|apply IH; reflexivity].
+Qed.
+
+Lemma write_at_keeps vs h' now : t <= now -> forall k, Forall2 keeps vs (write_at vs k h' now).
+Proof.
+  intros Hn. induction vs as [|v r IH]; intros k; cbn [write_at]; [constructor|].
+  destruct (v_ro v); [constructor; [apply keeps_refl|apply IH]|].
+  destruct k; constructor; try apply keeps_refl; try apply IH; try apply Forall2_keeps_refl. apply keeps_set. exact Hn.
+Qed.
+
+Lemma trash_all_keeps vs h' now : now < t + ttl c -> Forall2 keeps vs (snd (trash_all c vs h' now)).
+Proof.
+  intros Hn. induction vs as [|v r IH]; cbn [trash_all]; [constructor|].
+  destruct (trash_all c r h' now) as [n r'] eqn:E. cbn [snd] in IH.
+  destruct (v_ro v); cbn [snd]; [constructor; [apply keeps_refl|exact IH]|].
+  pose proof (keeps_trash v h' now Hn) as K. destruct (vol_trash c v h' now) as [[| |] v']; cbn [snd] in *; constructor; assumption.
+Qed.
+
+Lemma untrash_all_keeps vs h' : h' <> h -> Forall2 keeps vs (snd (untrash_all vs h')).
+Proof.
+  intros E. induction vs as [|v r IH]; cbn [untrash_all]; [constructor|].
+  destruct (untrash_all r h') as [n r'] eqn:E'. cbn [snd] in IH.
+  destruct (v_ro v); cbn [snd]; [constructor; [apply keeps_refl|exact IH]|].
+  pose proof (keeps_untrash v h' E) as K. destruct (vol_untrash v h') as [[| |] v']; cbn [snd] in *; constructor; assumption.
+Qed.
+
+Lemma map_keeps (f : vol -> vol) vs : (forall v, keeps v (f v)) -> Forall2 keeps vs (map f vs).
+Proof. intros Hf. induction vs; cbn; constructor; auto. Qed.
+
+Lemma trash_list_keeps its now : now < t + ttl c -> forall vs, Forall2 keeps vs (trash_list c vs its now).
+Proof.
+  intros Hn. unfold trash_list. induction its as [|it r IH]; intros vs; cbn [fold_left]; [apply Forall2_keeps_refl|].
+  eapply Forall2_keeps_trans; [|apply IH].
+  unfold trash_item. destruct (now - i_mtime it <? ttl c); [apply Forall2_keeps_refl|].
+  apply map_keeps. intros v. apply keeps_trash_item. exact Hn.
+Qed.
+
+(* one step keeps a fresh copy fresh: clock not before t, not yet t + ttl, and the step is not an
+   Untrash of the same hash *)
+Lemma step_keeps s now o : t <= now -> now < t + ttl c -> o <> Untrash h ->
+  Forall2 keeps (vols s) (vols (snd (step c s now o))).
+Proof.
+  intros H1 H2 Ho. destruct o as [h'|h'|h'|its|h'|h'|]; cbn [step].
+  - unfold h_put. destruct (writable (vols s)); [apply Forall2_keeps_refl|].
+    destruct (touch_first (vols s) h' now) as [vs'|] eqn:Et; cbn [snd vols].
+    + eapply touch_first_keeps; eassumption.
+    + apply write_at_keeps. exact H1.
+  - unfold h_touch. destruct (writable (vols s)); [apply Forall2_keeps_refl|].
+    destruct (touch_first (vols s) h' now) as [vs'|] eqn:Et; cbn [snd vols]; [|apply Forall2_keeps_refl].
+    eapply touch_first_keeps; eassumption.
+  - apply Forall2_keeps_refl.
+  - cbn [snd vols]. apply trash_list_keeps. exact H2.
+  - unfold h_delete. destruct (negb (blob_trash c)); [apply Forall2_keeps_refl|].
+    pose proof (trash_all_keeps (vols s) h' now H2) as K.
+    destruct (trash_all c (vols s) h' now) as [n vs']. cbn [snd vols] in *. exact K.
+  - unfold h_untrash. destruct (writable (vols s)); [apply Forall2_keeps_refl|].
+    assert (E : h' <> h) by (intros ->; apply Ho; reflexivity).
+    pose proof (untrash_all_keeps (vols s) h' E) as K.
+    destruct (untrash_all (vols s) h') as [n vs']. cbn [snd vols] in *. exact K.
+  - cbn [snd vols]. unfold empty_trash. apply map_keeps. intros v. destruct (v_ro v); [apply keeps_refl|apply keeps_empty].
+Qed.
+
+(* a whole history *)
+Definition calm (p : Z * op) : Prop := t <= fst p /\ fst p < t + ttl c /\ snd p <> Untrash h.
+
+Lemma final_keeps hs : Forall calm hs -> forall s, Fresh (vols s) -> Fresh (vols (final c s hs)).
+Proof.
+  induction hs as [|[now o] r IH]; intros HF s HS; cbn [final]; [exact HS|].
+  inversion HF as [|x l [A [B D]] HF']; subst. cbn [fst snd] in *.
+  apply IH; [exact HF'|]. eapply Forall2_keeps; [apply step_keeps; assumption|exact HS].
+Qed.
+
+End Fresh.
+
+(* an acknowledged Put or Touch at time t establishes a copy with mtime t *)
+Lemma touch_first_fresh h now : forall vs vs', touch_first vs h now = Some vs' -> Fresh h now vs'.
+Proof.
+  induction vs as [|v r IH]; intros vs'; cbn [touch_first]; [discriminate|].
+  destruct (vol_touch v h now) as [v'|] eqn:Et.
+  - intros X; inversion X; subst. constructor 1. unfold vol_touch in Et. destruct (v_ro v); [discriminate|].
+    destruct (find_block (v_blocks v) h); [|discriminate]. inversion Et; subst.
+    exists now. cbn [with_blocks v_blocks]. rewrite find_set_same. split; [reflexivity|lia].
+  - destruct (touch_first r h now) as [r'|] eqn:E; [|discriminate]. intros X; inversion X; subst.
+    constructor 2. eapply IH; reflexivity.
+Qed.
+
+Lemma write_at_fresh h now : forall vs k, (k < List.length (writable vs))%nat -> Fresh h now (write_at vs k h now).
+Proof.
+  induction vs as [|v r IH]; intros k Hk; cbn [writable filter List.length] in Hk; [lia|].
+  cbn [write_at]. destruct (v_ro v); cbn [negb] in Hk.
+  - constructor 2. apply IH. exact Hk.
+  - cbn [List.length] in Hk. destruct k.
+    + constructor 1. exists now. cbn [with_blocks v_blocks]. rewrite find_set_same. split; [reflexivity|lia].
+    + constructor 2. apply IH. unfold writable. lia.
+Qed.
+
+Lemma ack_establishes c s t o h s1 code :
+  (o = Put h \/ o = Touch h) -> step c s t o = (code, s1) -> code = 200%N -> Fresh h t (vols s1).
+Proof.
+  intros [->| ->]; cbn [step].
+  - unfold h_put. destruct (writable (vols s)) as [|w0 ws] eqn:Ew; [intros X; inversion X; subst; discriminate|].
+    destruct (touch_first (vols s) h t) as [vs'|] eqn:Et; intros X; inversion X; subst; intros _; cbn [vols].
+    + eapply touch_first_fresh; eassumption.
+    + apply write_at_fresh. rewrite Ew.
+      assert (((counter s + 1) mod 4294967296 mod N.of_nat (List.length (w0 :: ws)) < N.of_nat (List.length (w0 :: ws)))%N)
+        by (apply N.mod_lt; cbn [List.length]; lia).
+      cbn [List.length] in *. lia.
+  - unfold h_touch. destruct (writable (vols s)); [intros X; inversion X; subst; discriminate|].
+    destruct (touch_first (vols s) h t) as [vs'|] eqn:Et; intros X; inversion X; subst; [|discriminate].
+    intros _. cbn [vols]. eapply touch_first_fresh; eassumption.
+Qed.
+
+(* fresh_survives: after an acknowledged Put/Touch of h at time t, whatever requests follow (Put,
+   Touch, Get, trash lists, Delete, EmptyTrash, Untrash of other hashes) while t <= now < t + ttl,
+   some volume still holds h as a block file with a timestamp >= t (so it is neither in the trash nor
+   trashable).  Holds for every prefix of the history, i.e. at every intermediate point. *)
+Theorem fresh_survives c s t o h code s1 hs :
+  (o = Put h \/ o = Touch h) -> step c s t o = (code, s1) -> code = 200%N ->
+  Forall (calm c h t) hs ->
+  Fresh h t (vols (final c s1 hs)).
+Proof.
+  intros Ho Hs Hc Hh. apply final_keeps; [exact Hh|]. eapply ack_establishes; eassumption.
+Qed.
+
+(* the clock hypothesis follows from a non-decreasing clock that has not reached t + ttl *)
+Fixpoint nondecr (prev : Z) (hs : list (Z * op)) : Prop :=
+  match hs with [] => True | (now, _) :: r => prev <= now /\ nondecr now r end.
+Lemma nondecr_calm c h t : forall hs prev, t <= prev -> nondecr prev hs ->
+  Forall (fun p => fst p < t + ttl c /\ snd p <> Untrash h) hs -> Forall (calm c h t) hs.
+Proof.
+  induction hs as [|[now o] r IH]; intros prev Hp Hn HF; constructor; inversion HF; subst; cbn [nondecr] in Hn.
+  - unfold calm. cbn [fst snd] in *. destruct Hn. split; [lia|tauto].
+  - destruct Hn. eapply IH; [|eassumption|assumption]. lia.
+Qed.
+
+Corollary fresh_survives_clock c s t o h code s1 hs :
+  (o = Put h \/ o = Touch h) -> step c s t o = (code, s1) -> code = 200%N ->
+  nondecr t hs -> Forall (fun p => fst p < t + ttl c /\ snd p <> Untrash h) hs ->
+  exists v m, In v (vols (final c s1 hs)) /\ find_block (v_blocks v) h = Some m /\ t <= m.
+Proof.
+  intros Ho Hs Hc Hn HF.
+  assert (X : Fresh h t (vols (final c s1 hs))).
+  { eapply fresh_survives; try eassumption. eapply nondecr_calm; [|eassumption|assumption]. lia. }
+  apply Exists_exists in X. destruct X as (v & A & m & B & D). eauto.
+Qed.
+
+(* F20: with an Untrash of the same hash in between the statement fails — Untrash renames an older
+   trashed copy over the fresh block file, and the next Delete trashes it *)
+Local Open Scope string_scope.
+Definition f20_cfg : cfg := {| ttl := 7200 * NS; life := 86400 * NS; blob_trash := true |}.
+Definition f20_s0 : state :=
+  {| vols := [{| v_ro := false; v_uuid := "u"; v_blocks := []; v_trash := [] |}]; counter := 0 |}.
+Definition f20_history : list (Z * op) :=
+  [ (0, Put "a"); (7300 * NS, Delete "a"); (7301 * NS, Put "a"); (7302 * NS, Untrash "a"); (7303 * NS, Delete "a") ].
+Definition f20_s3 : state := final f20_cfg f20_s0 (firstn 2 f20_history).
+Definition f20_tail : list (Z * op) := [ (7302 * NS, Untrash "a"); (7303 * NS, Delete "a") ].
+
+(* the acknowledged Put at t = 7301 s, then Untrash and Delete inside the TTL: the block is gone *)
+Lemma f20_ack : exists s1, step f20_cfg f20_s3 (7301 * NS) (Put "a") = (200%N, s1) /\
+  existsb (fun v => has_block v "a") (vols (final f20_cfg s1 f20_tail)) = false /\
+  h_get (final f20_cfg s1 f20_tail) "a" = 404%N.
+Proof. eexists. split; [vm_compute; reflexivity|]. split; vm_compute; reflexivity. Qed.
+Lemma f20_clock : nondecr (7301 * NS) f20_tail /\ Forall (fun p => fst p < 7301 * NS + ttl f20_cfg) f20_tail.
+Proof.
+  unfold f20_tail, f20_cfg, NS. cbn [nondecr ttl fst]. split; [lia|]. repeat constructor; cbn [fst]; lia.
+Qed.
+
+Theorem fresh_survives_untrash_refuted :
+  exists c s t h code s1 hs,
+    step c s t (Put h) = (code, s1) /\ code = 200%N /\ nondecr t hs /\
+    Forall (fun p => fst p < t + ttl c) hs /\
+    ~ (exists v m, In v (vols (final c s1 hs)) /\ find_block (v_blocks v) h = Some m).
+Proof.
+  destruct f20_ack as (s1 & A & B & _). destruct f20_clock as [C D].
+  exists f20_cfg, f20_s3, (7301 * NS), "a", 200%N, s1, f20_tail.
+  split; [exact A|]. split; [reflexivity|]. split; [exact C|]. split; [exact D|].
+  intros (v & m & Hin & Hf).
+  assert (X : existsb (fun v => has_block v "a") (vols (final f20_cfg s1 f20_tail)) = true).
+  { apply existsb_exists. exists v. split; [exact Hin|]. unfold has_block. rewrite Hf. reflexivity. }
+  rewrite B in X. discriminate.
+Qed.
